@@ -120,7 +120,12 @@ class Check(PropertyCheck):
                                                          ("\u200b" + gen.zoo(r)).encode(), gen.zoo(r, crlf=True).encode(),
                                                          gen.zoo(r).encode()]), "utf8"))
             elif k == 6:
-                reqs.append(("POST", "/", b"+--\xff\xfe--+", "bad"))
+                # not UTF-8 in several ways: stray bytes, a multi-byte character cut short at the very end of the body (alone
+                # or after a valid drawing), a continuation byte without a start, an overlong form, a surrogate
+                base = r.choice([b"", b"+--+\n|  |\n+--+\n", "\u250c\u2500\u2510\n".encode(), gen.random_diagram(r, 12, 3).encode()])
+                reqs.append(("POST", "/", r.choice([b"+--\xff\xfe--+", base + b"\xc3", base + b"\xe2\x94", base + b"\xf0\x9f\x98",
+                                                    base + "\u2500".encode()[:-1], b"\x80" + base, base + b"\xc0\xaf",
+                                                    base + b"\xed\xa0\x80", base + b"\xc3" + b" "]), "bad"))
             elif k == 7:
                 reqs.append(("GET", "/", b"", "get"))
             elif k == 8:
